@@ -47,8 +47,25 @@ def stop_adjustments(fnode):
         pos = any(g.replace(' ', '') in (f'{step_txt}>0', f'{step_txt}>=0', f'not({step_txt}<0)') for g in guards)
         need = {ast.Add: 'pos', ast.Sub: 'neg'}.get(type(stop.op)) if const_adj else None
         ok = (not const_adj) or (need == 'pos' and pos and not neg) or (need == 'neg' and neg and not pos)
-        out.append((call, ok, {'stop': ast.unparse(stop), 'step': step_txt, 'guards': guards,
-                               'step_sign_context': 'neg' if neg else 'pos' if pos else 'unknown'}))
+        facts = {'stop': ast.unparse(stop), 'step': step_txt, 'guards': guards,
+                 'step_sign_context': 'neg' if neg else 'pos' if pos else 'unknown'}
+        # the exclusive end of a range lies ONE beyond the inclusive bound, whatever the stride: an adjustment that is not
+        # the constant 1 (e.g. `+ step`) over-/under-shoots unless the bound happens to be stride-aligned
+        stopnames = set()
+        for a_ in ast.walk(fnode):
+            if isinstance(a_, ast.Assign):
+                tg_, vl_ = a_.targets[0], a_.value
+                if isinstance(tg_, ast.Tuple) and isinstance(vl_, ast.Tuple) and len(tg_.elts) == len(vl_.elts):
+                    stopnames |= {t_.id for t_, v_ in zip(tg_.elts, vl_.elts) if isinstance(t_, ast.Name) and '.stop' in ast.unparse(v_)}
+                elif isinstance(tg_, ast.Name) and '.stop' in ast.unparse(vl_):
+                    stopnames.add(tg_.id)
+        from_stop = isinstance(stop, ast.BinOp) and ('.stop' in ast.unparse(stop.left) or any(
+            isinstance(x_, ast.Name) and x_.id in stopnames for x_ in ast.walk(stop.left)))
+        if isinstance(stop, ast.BinOp) and isinstance(stop.op, (ast.Add, ast.Sub)) and from_stop:
+            if not (isinstance(stop.right, ast.Constant) and stop.right.value == 1):
+                ok = False
+                facts['non_unit_adjustment'] = ast.unparse(stop.right)
+        out.append((call, ok, facts))
     return out
 
 
@@ -64,29 +81,35 @@ def run(ctx):
         lr = [p for p in params if 'range' in p.lower()]
         if not lr:
             continue
+        # locals computed from the LoopRange parameter
+        derived = set(lr)
+        grew = True
+        while grew:
+            grew = False
+            for a_ in ast.walk(fn.node):
+                if isinstance(a_, ast.Assign) and any(isinstance(x_, ast.Name) and x_.id in derived for x_ in ast.walk(a_.value)):
+                    for t_ in a_.targets:
+                        for x_ in ast.walk(t_):
+                            if isinstance(x_, ast.Name) and x_.id not in derived:
+                                derived.add(x_.id)
+                                grew = True
         for call, guards in X.nodes_with_guards(fn.node, lambda x: isinstance(x, ast.Call) and isinstance(x.func, ast.Name) and x.func.id == 'range', early=True):
-            if not any(p in ast.unparse(call) for p in lr):
+            if not any(isinstance(x_, ast.Name) and x_.id in derived for x_ in ast.walk(call)):
                 continue
             n += 1
             inst = f'{fn.name}:{ast.unparse(call)[:60]}'
             where = f'{mod.relpath}:{call.lineno}'
             if len(call.args) == 3:
-                stop, step = call.args[1], call.args[2]
-                const_adj = isinstance(stop, ast.BinOp) and isinstance(stop.op, (ast.Add, ast.Sub)) and \
-                    isinstance(stop.right, ast.Constant)
-                step_txt = ast.unparse(step)
-                # sign context of the step established by the guards of this construction
-                neg = any(g.replace(' ', '') in (f'{step_txt}<0', f'not({step_txt}>=0)', f'not({step_txt}>0)') for g in guards)
-                pos = any(g.replace(' ', '') in (f'{step_txt}>0', f'{step_txt}>=0', f'not({step_txt}<0)') for g in guards)
-                need = {ast.Add: 'pos', ast.Sub: 'neg'}.get(type(stop.op)) if const_adj else None
-                sign_guard = (need == 'pos' and pos and not neg) or (need == 'neg' and neg and not pos)
-                facts = {'stop': ast.unparse(stop), 'step': step_txt, 'guards': guards, 'step_sign_context': 'neg' if neg else 'pos' if pos else 'unknown'}
-                if const_adj and not sign_guard:
-                    ctx.violation('R1', f'{fn.name}:range-stop-adjustment', where,
-                                  f'`{ast.unparse(call)}`: the inclusive upper bound is turned into Python\'s exclusive bound by a '
-                                  f'constant {ast.unparse(stop.op).strip() if hasattr(ast, "unparse") else ""}'
-                                  f'{stop.right.value} whatever the sign of the step: DO i=10,1,-3 enumerates 10,7,4 and loses 1',
-                                  facts=facts, instance=inst)
+                adj = {id(c_): (ok_, f_) for c_, ok_, f_ in stop_adjustments(fn.node)}
+                ok3, facts = adj.get(id(call), (True, {}))
+                if not ok3:
+                    if 'non_unit_adjustment' in facts:
+                        why = (f"the exclusive end is obtained by adjusting the inclusive bound by `{facts['non_unit_adjustment']}` instead "
+                               f"of 1: unless the bound is stride-aligned the range gains or loses an iteration (DO i=10,1,-2 also yields 0)")
+                    else:
+                        why = ("the inclusive upper bound is turned into Python's exclusive bound by a constant 1 whatever the sign of the "
+                               "step: DO i=10,1,-3 enumerates 10,7,4 and loses 1")
+                    ctx.violation('R1', f'{fn.name}:range-stop-adjustment', where, f'`{ast.unparse(call)}`: {why}', facts=facts, instance=inst)
                 else:
                     ctx.judge('R1', inst, facts=facts)
             elif len(call.args) == 2:
